@@ -130,6 +130,14 @@ def materialise(base, mask: int, variant: str):
     return jwire.write_delimited(raw), expect, [m for _, m in frames]
 
 
+def _annotate(var) -> None:
+    """A consumer that keeps notes in the mapping it was handed for this frame."""
+    try:
+        var.get()["consumer-note"] = b"seen"
+    except Exception:  # noqa: BLE001  (a read-only mapping is fine)
+        pass
+
+
 def grouped(api: str, data: bytes):
     """-> list of (statements of the sink, metadata visible after the sink was yielded)."""
     var: contextvars.ContextVar = contextvars.ContextVar("frame_metadata")
@@ -155,6 +163,7 @@ def grouped(api: str, data: bytes):
             for sink in gp.parse_jelly_grouped(io.BytesIO(data), sink_factory=factory,
                                                frame_metadata=var):
                 meta = dict(var.get())
+                _annotate(var)
                 if not any(sink is m for m in made):
                     meta["!factory"] = b"sink not from the supplied factory"
                 out.append(([("st", T.norm_st(T.st_from_generic(s))) for s in sink], meta))
@@ -181,6 +190,7 @@ def grouped(api: str, data: bytes):
             for g in rp.parse_jelly_grouped(io.BytesIO(data), graph_factory=gf,
                                             dataset_factory=df, frame_metadata=var):
                 meta = dict(var.get())
+                _annotate(var)
                 if not any(g is m for m in made):
                     meta["!factory"] = b"graph not from the supplied factory"
                 out.append((DR._graph_events(g), meta))
@@ -335,6 +345,8 @@ def check_write(case: dict) -> list[tuple[str, str]]:
 
         if via == "frames-kept":
             kept(ser, [DR.g_sink(g, binds) for g in inputs])
+        elif via == "list-input":  # the containers in a list / tuple, not a generator
+            ser.grouped_stream_to_file([DR.g_sink(g, binds) for g in inputs], out, options=opts)
         elif via:
             shared(ser, [DR.g_sink(g) for g in inputs if g])
         else:
@@ -357,6 +369,8 @@ def check_write(case: dict) -> list[tuple[str, str]]:
 
         if via == "frames-kept":
             kept(ser, [mk(g) for g in inputs])
+        elif via == "list-input":
+            ser.grouped_stream_to_file(tuple(mk(g) for g in inputs), out, options=opts)
         elif via:
             shared(ser, [mk(g) for g in inputs if g])
         else:
@@ -413,7 +427,7 @@ def write_shard(job) -> dict:
                               f"{msg} case={c2}", c2)
         if len(sym) <= 2 and any(sym):
             for via in (("shared-triple",) if arity == 3 else ("shared-quad", "shared-graph")) + (
-                    "frames-kept",):
+                    "frames-kept", "list-input"):
                 c2 = {**case, "via": via}
                 acc.evals += 1
                 try:
